@@ -129,5 +129,26 @@ PROPS["C13"] = {
     "assumptions": [], "outside": "",
 }
 
+PROPS["C18"] = {
+    "programs": {"quick": [P("test", "VerifRecursiveImport", must_reach=("end","other-kind"), depth=1, entries=2)]},
+    "bounds": {"quick": "trees of depth<=1 (root + up to 2 entries), each node's kind from an arbitrary 32-bit mode word, names 1 byte a..z, file contents / link targets 0..2 arbitrary bytes"},
+    "assumptions": [], "outside": "",
+}
+PROPS["C15"] = {
+    "programs": {"quick": [P("test", "VerifLinkMapContract", must_reach=("end","absent-key","present-key"), links=2),
+                           P("test", "VerifHamtReaderWellFormed", must_reach=("end","member","non-member","iterate"))]},
+    "bounds": {"quick": "link lists of 0..2 links (names absent or 0..2 arbitrary bytes, so empty/duplicate names arise), plain directory and generic link map; 4 hand-built well-formed HAMT shapes (3 levels, several sub-shards per shard)"},
+    "assumptions": [], "outside": "",
+}
+
+PROPS["C19"] = {
+    "programs": {"quick": [P("testutil", "VerifFixtureGenerators", must_reach=("end","unixfs-directory","custom-generator"), target=2048, freecoins=5, freenames=1),
+                           P("testutil", "VerifFixtureFile")]},
+    "bounds": {"quick": "UnixFSDirectory (default, sharded bit-width 3, custom child generator), GenerateDirectory (plain/sharded), UnixFSFile sizes 0..3, BuildDirectory; target size 2048; the first 5 dice and the first generated name are explorer-chosen (every value), later draws are scripted (file, largest size, fresh name)"},
+    "native_any_label": True,
+    "assumptions": ["crypto/rand.Int and namegen are replaced by a scripted source (their draws are the symbolic inputs); native replay runs the real generators with a math/rand stream seeded from the witness"],
+    "outside": "",
+}
+
 NOT_APPLICABLE = {}
 NOTES = "All checks are bounded: every result reads 'holds for all values within the bounds recorded in the evidence file; nothing is claimed outside them'. exit 2 = inconclusive (never a pass)."
